@@ -438,6 +438,10 @@ class Engine:
             return [(st, (NORMAL,))]
         if isinstance(stmt, ast.Return):
             val = self.ev(stmt.value, st) if stmt.value is not None else None
+            if isinstance(val, VRec) and 'is_false' in val.fields and self.c.get('result') == 'bool' and not st.spec:
+                # returning the scalar-False-or-array value as a Boolean result: only its scalar False form is a Boolean
+                self.oblige(st, val.fields['is_false'].t, f'returned-value-is-the-scalar-False@L{stmt.lineno}', 'safety', stmt)
+                val = VBool(z3.BoolVal(False))
             return [(st, (RETURN, val, stmt))]
         if isinstance(stmt, ast.Pass):
             return [(st, (NORMAL,))]
@@ -1175,7 +1179,15 @@ class Engine:
                 st.tainted = True
                 t = z3.Bool(fresh_name('unk'))
             else:
-                t = equal(a, b)
+                try:
+                    t = equal(a, b)
+                except (Unsupported, SpecError):
+                    if not (self.c.get('lenient') and not st.spec):
+                        raise
+                    # lenient contract: an element-wise / unmodelled comparison is an unknown value (the path is tainted)
+                    self.lenient_skips.append((getattr(node, 'lineno', 0), f'comparison {ast.unparse(node)[:60]} not modelled: unknown value'))
+                    st.tainted = True
+                    t = z3.Bool(fresh_name('unk'))
             return t if isinstance(op, ast.Eq) else z3.Not(t)
         if isinstance(op, (ast.In, ast.NotIn)):
             t = None
@@ -1213,6 +1225,11 @@ class Engine:
         m = self.menv.identical_model(a, b)
         if m is not None:
             return m
+        # a value that is EITHER the scalar False OR an array (what `a == b` of two ndarrays returns) is a record with the Boolean field `is_false`:
+        # `x is False` reads that field
+        for x, y in ((a, b), (b, a)):
+            if isinstance(x, VRec) and 'is_false' in x.fields and ((isinstance(y, VBool) and z3.is_false(z3.simplify(y.t))) or (isinstance(y, VConst) and y.py is False)):
+                return x.fields['is_false'].t
         if isinstance(a, VConst) and isinstance(b, VConst):
             return z3.BoolVal(a.py == b.py)
         if isinstance(a, VBool) and isinstance(b, VBool):
@@ -1251,6 +1268,9 @@ class Engine:
                 return base.fields[a]
             if a == '__class__' and base.name != 'arr':
                 return VConst(('class', self.c.get('rec_classes', {}).get(base.name, [base.name])[0]))
+            alias = self.c.get('attr_alias', {}).get(f'{base.name}.{a}')
+            if alias is not None and alias in base.fields:      # a read-only property that returns a modelled field (stated, and listed as assumed, by the contract)
+                return base.fields[alias]
             v = self.menv.attr_model(base, a, self, st)
             if v is not None:
                 return v
